@@ -94,4 +94,14 @@ public:
   using needs_internal_lookup_symbol = void;
   template<typename T = void> void* impl_internal_lookup_symbol(const char*) { return nullptr; }
 };
+
+// Variant that can move buffers in and out of the sandbox without copying (can_grant_deny_access): exercises the native
+// paths of copy_memory_or_grant_access / copy_memory_or_deny_access.
+class vsbx_gd : public vsbx
+{
+public:
+  using can_grant_deny_access = void;
+  template<typename T> T* impl_grant_access(T* src, size_t, bool& success) { success = false; return src; }
+  template<typename T> T* impl_deny_access(T* src, size_t, bool& success) { success = false; return src; }
+};
 }
